@@ -1130,6 +1130,27 @@ func (c *Canonicalizer) writePhi(w *strings.Builder, i *ssa.Phi, instr ssa.Instr
 	}
 	edges := make([]edge, 0, len(i.Edges))
 	preds := i.Block().Preds
+	// Edge values that have no register name yet (values defined on back edges) are named on
+	// first use. Visit the edges in canonical predecessor order first, so that this numbering does
+	// not depend on the order of Preds in the SSA form (which follows source order of the branches).
+	order := make([]int, 0, len(i.Edges))
+	for j := range i.Edges {
+		if j < len(preds) {
+			order = append(order, j)
+		}
+	}
+	predNum := func(j int) int {
+		if id := c.blockMap[preds[j]]; len(id) > 1 && id[0] == 'b' {
+			if n, err := strconv.Atoi(id[1:]); err == nil {
+				return n
+			}
+		}
+		return len(c.blockMap) + preds[j].Index
+	}
+	sort.SliceStable(order, func(a, b int) bool { return predNum(order[a]) < predNum(order[b]) })
+	for _, j := range order {
+		c.NormalizeOperand(i.Edges[j], instr)
+	}
 	for j, val := range i.Edges {
 		if j >= len(preds) {
 			break
